@@ -23,8 +23,10 @@ pub enum Ev {
     AppPing,
     AppSetWindow(u32),
     AppRespondBody(usize),
-    /// push_request on the open stream (at most twice)
+    /// push_request on the open stream (at most twice), response head without END_STREAM
     AppPush,
+    /// the body of the oldest pushed response still open: one octet + END_STREAM
+    AppPushedEnd,
     Drive,
     DriveBudget(usize),
     DriveBlocked,
@@ -64,6 +66,8 @@ pub struct World {
     pub local_windows: Vec<u32>,
     pub responded: bool,
     pub pushes: usize,
+    pub pushed: Vec<h2::SendStream<Bytes>>,
+    pub life: Lifecycle,
     pub stream_open: bool,
     pub acct: FlowAcct,
 }
@@ -102,6 +106,7 @@ impl AckModel {
         }
         ev.push(Ev::AppRespondBody(40_000));
         ev.push(Ev::AppPush);
+        ev.push(Ev::AppPushedEnd);
         ev.push(Ev::Drive);
         ev.push(Ev::DriveBudget(9));
         if !quick {
@@ -210,7 +215,7 @@ impl Model for AckModel {
         let pp = if let Conn::Server(c) = &mut t.conn { c.ping_pong() } else { None };
         let mut acct = FlowAcct::new(Side::Server);
         acct.update(&t.mon);
-        World { pp, user_ping_outstanding: false, stray_settings_ack_sent: false, local_windows: vec![65535], responded: false, pushes: 0, stream_open: true, acct }
+        World { pp, user_ping_outstanding: false, stray_settings_ack_sent: false, local_windows: vec![65535], responded: false, pushes: 0, pushed: vec![], life: Lifecycle::new(Side::Server), stream_open: true, acct }
     }
     fn n_events(&self) -> usize {
         self.events.len()
@@ -247,6 +252,7 @@ impl Model for AckModel {
             Ev::AppSetWindow(x) => w.local_windows.last() != Some(x) && t.mon.unacked_settings[t.role.idx()].is_empty(),
             Ev::AppRespondBody(_) => !w.responded,
             Ev::AppPush => !w.responded && w.pushes < 2,
+            Ev::AppPushedEnd => !w.pushed.is_empty(),
             _ => true,
         }
     }
@@ -300,11 +306,19 @@ impl Model for AckModel {
                     if let Some(r) = a.respond.as_mut() {
                         // (refused by h2 once the peer's ENABLE_PUSH = 0 is in force: that is the obedient outcome)
                         if let Some(Ok(mut p)) = guarded(&mut panics, "push_request", || r.push_request(simple_request("/pushed", false))) {
-                            let _ = guarded(&mut panics, "pushed send_response", || p.send_response(simple_response(200), true).map(drop));
+                            if let Some(Ok(ss)) = guarded(&mut panics, "pushed send_response", || p.send_response(simple_response(200), false)) {
+                                w.pushed.push(ss);
+                            }
                         }
                     }
                 }
                 w.pushes += 1;
+            }
+            Ev::AppPushedEnd => {
+                let mut ss = w.pushed.remove(0);
+                // (an error here is the obedient outcome once the promise was cancelled)
+                let _ = guarded(&mut panics, "pushed send_data", || ss.send_data(Bytes::from_static(b"x"), true));
+                safe_drop(&mut panics, "SendStream", Some(ss));
             }
             Ev::Drive => {
                 t.drive(200);
@@ -349,6 +363,12 @@ impl Model for AckModel {
         }
         for (k, what) in post_ack_obedience(t) {
             v.push((format!("C14.{}", k), "post-ack".into(), what));
+        }
+        // a promise cancelled because the peer disabled push must not leave traces on the wire either: nothing is ever sent on
+        // a stream that was never announced (sender automaton of C04)
+        w.life.update(&t.mon);
+        for x in w.life.violations.drain(..) {
+            v.push(("C14.stream-lifecycle".into(), x.chars().filter(|c| !c.is_ascii_digit()).take(60).collect(), x));
         }
         // an acknowledgement that answers nothing is a connection error
         v
@@ -395,7 +415,7 @@ impl Model for AckModel {
             w.stray_settings_ack_sent,
             w.local_windows.last(),
             w.responded,
-            w.pushes,
+            w.pushes * 10 + w.pushed.len(),
             w.acct.conn_credit,
             w.acct.stream_credit(1),
             pv.v0(),
@@ -406,6 +426,9 @@ impl Model for AckModel {
     fn teardown(&self, mut t: T2, w: World) -> Vec<String> {
         let mut panics = std::mem::take(&mut t.panics);
         safe_drop(&mut panics, "PingPong", w.pp);
+        for ss in w.pushed {
+            safe_drop(&mut panics, "SendStream", Some(ss));
+        }
         t.panics = panics;
         t.finish()
     }
